@@ -48,30 +48,26 @@ Theorem C17_accept_clears_challenge : forall g s c r pref s' outs ev K ch,
              /\ p_pk p' = Some K.
 Proof. exact accept_clears_challenge. Qed.
 
-(* The accepted challenge belongs to the CURRENT connection of the entry.
-   Full statement (FALSE for the code): between the issue of the accepted
-   challenge and its acceptance the connection of c was neither re-opened nor
-   closed.  A static (outgoing) entry keeps challenge_for_peer across
-   Network::handle_new_peer: if a challenge is delivered while the entry is not
-   connected (a message in flight after a disconnect), the challenge the node
-   stores then survives the re-dial and a response over it is accepted on the new
-   connection: *)
-Theorem C17_accepted_on_this_connection_refuted :
-  exists tr s p l1 l2 l3, Reach g1 1 1 tr s
-    /\ aget 1 (peers s) = Some p /\ p_status p = Connected /\ p_pk p = Some 2
-    /\ tr = l3 ++ EAccepted 1 2 6 :: l2 ++ EIssued 1 6 :: l1
-    /\ In (EReset 1) l2.
-Proof. exact accepted_on_this_connection_refuted. Qed.
-
-(* in every run without that event (no static entry re-opened while a challenge
-   was stored; in particular every run whose static entries are only re-dialled
-   after a processed disconnect, and every incoming connection): mark_as_disconnected
-   and initiate_handshake discard / replace the challenge of the old connection *)
+(* The accepted challenge belongs to the CURRENT connection of the entry: between
+   the issue of the accepted challenge and its acceptance the connection of c was
+   neither re-opened nor closed, nor the entry removed (mark_as_disconnected,
+   handle_new_peer — since fix 8a16f73 also for static entries — and
+   initiate_handshake discard or replace the challenge of the old connection).
+   A response withheld across a disconnect and re-dial is therefore never accepted. *)
 Theorem C17_accepted_on_this_connection : forall g n f0 tr s c K ch,
-  Reach g n f0 tr s -> ~ Known_C17_stale tr -> In (EAccepted c K ch) tr ->
+  Reach g n f0 tr s -> In (EAccepted c K ch) tr ->
   exists l1 l2 l3, tr = l3 ++ EAccepted c K ch :: l2 ++ EIssued c ch :: l1
                    /\ forall e, In e l2 -> closes c e = false.
 Proof. exact accepted_on_this_connection. Qed.
+
+(* regression (8a16f73): challenge 6 is stored on the static entry 1 while it is not
+   connected; the re-dial discards it; the response signed over 6 is not accepted *)
+Example C17_stale_challenge_rejected :
+  exists tr s p, Reach g1 1 1 tr s
+    /\ In (EIssued 1 6) tr /\ In (ESigned 2 6) tr
+    /\ aget 1 (peers s) = Some p /\ p_status p = Disconnected /\ p_pk p = None
+    /\ addr s = [] /\ accepted_count 6 tr = 0%nat.
+Proof. exact stale_challenge_rejected. Qed.
 
 (* ---- rejected responses are inert ---- *)
 
@@ -212,7 +208,6 @@ Qed.
 Print Assumptions C17_connected_authentic.
 Print Assumptions C17_challenge_accepted_once.
 Print Assumptions C17_accept_clears_challenge.
-Print Assumptions C17_accepted_on_this_connection_refuted.
 Print Assumptions C17_accepted_on_this_connection.
 Print Assumptions C17_bad_response_inert.
 Print Assumptions C17_no_panic.
